@@ -14,13 +14,15 @@ from vf import typedesc_impl as T
 META = {
     'technique': 'Coq proof (induction on unbounded type trees) about a hand-written executable model of cqltypes.lookup_casstype / '
                  'cql_parameterized_type / cqltype_to_python / python_to_cqltype / strip_frozen + correspondence with the real functions',
-    'level_text': 'C28_cass_parse_codec (every well-formed tree: the descriptor parses to a class with the same codec structure), '
-                  'C28_cass_parse_cql_name_partial (same CQL name, vector-free trees; with vectors the name is proved to be the spec name '
-                  'with the Java class name in place of "vector": C28_cass_parse_refuted), C28_cql_roundtrip, C28_strip_frozen, '
-                  'C28_types_from_string proved for all trees; model tied to the source by differential execution.',
-    'level_note': 'Trusted: Coq kernel, the transcription of Cassandra\'s AbstractType.toString / CQL3Type names (spec_cass_print, '
-                  'spec_cql_name; the frozen marker of tuples/UDTs follows the driver), the harness. re.Scanner, ast.literal_eval, '
-                  'repr(list) and the class registry are modelled by hand (tie C); every case starts from a fresh registry.',
+    'level_text': 'Proved for every well-formed type tree of any depth: C28_cass_parse_codec (Cassandra\'s descriptor of the type parses to a '
+                  'class with the type\'s codec structure and the specified CQL name, vectors written with the marshal class name), '
+                  'C28_cass_parse_partial (same CQL name, vector-free trees), C28_cass_parse_refuted (the full clause fails on vectors: open '
+                  'finding C28-1), C28_cql_roundtrip_print (printing the parsed hierarchy of a CQL name gives the canonical name), '
+                  'C28_strip_frozen (exactly the frozen markers are removed). Model tied to cassandra/cqltypes.py by differential execution.',
+    'level_note': 'Partial: the direction CQL string -> python list (re.Scanner + ast.literal_eval in cqltype_to_python) is modelled and '
+                  'compared with the driver but not covered by a theorem. Trusted: Coq kernel, the transcription of Cassandra\'s '
+                  'AbstractType.toString / CQL3Type names (the frozen marker of tuples/UDTs follows the driver), the harness; re.Scanner, '
+                  'ast.literal_eval, repr(list) and the class registry are modelled by hand; every case starts from a fresh registry.',
     'design_ref': 'DESIGN.md section 4, C28',
 }
 
@@ -361,7 +363,7 @@ def run(ctx):
         ctx.case(key, nontrivial=d >= 1, sample={'tree': t, 'descriptor': desc, 'parsed': summary['result'], 'cql_name': summary['cql']} if d >= 2 else None)
         for (k, what, exp, act) in bad:
             ctx.violation(k, what, case={'tree': t}, expected=exp, actual=act,
-                          theorem='C28_cass_parse' if k.startswith('cass_parse') else 'C28_cql_roundtrip' if k == 'cql_roundtrip' else 'C28_strip_frozen')
+                          theorem='C28_cass_parse_partial' if k.startswith('cass_parse') else 'C28_cql_roundtrip_print' if k == 'cql_roundtrip' else 'C28_strip_frozen')
         cases.append('chk_tree %s %s %s %s %s' % (T.gty(t), T.gs(desc), T.gs(T.spec_cql(t)), T.gs(T.spec_cql(t, fz=False)), g))
         meta.append(('tree', t, summary))
     # CQL strings of the trees whose UDT names are plain words (modelled grammar) + malformed ones
